@@ -86,13 +86,13 @@ Section Run.
   End Loop.
 
   (* FortranEngine.solve_t = BaseModel.solve_t: feasible period (either spelling of t), every option of the lattice with
-     max_iter >= 1, in-span offset, finite check values at the start, and `run_ok` for the passes that run *)
+     in-span offset, finite check values at the start, and `run_ok` for the passes that run *)
   Theorem w_solve_t_refines_run fm d o t s p n m :
     shape n m (vals_of s) -> length (status s) = n -> (0 < m)%nat ->
     rows_ok m (check d) -> rows_ok m (endo d) ->
     fm_endo fm = endo_nums d -> fm_lags fm = Z.of_nat (lags d) -> fm_leads fm = Z.of_nat (leads d) ->
     py_pos n t = Some p -> feasible d n p = true ->
-    errors o <> EInvalid -> 0 < max_iter o -> min_iter o <= max_iter o ->
+    errors o <> EInvalid -> min_iter o <= max_iter o ->
     (offset o = 0 \/ 0 <= Z.of_nat p + offset o < Z.of_nat n) ->
     (forall v, shape n m v -> shape n m (evf (Z.of_nat p + 1) v)) ->
     let v0 := seeded d o (vals_of s) p in
@@ -102,7 +102,7 @@ Section Run.
     run_ok d o t p v0 (Z.to_nat (max_iter o)) 0 ->
     agree num (w_solve_t fm d o t s) (solve_t_M d o t s).
   Proof.
-    intros Hs Hlen Hm Hchk Hend Hfe Hfl Hfd Hpos Hfeas Hinv Hmax Hmm Hoff Hshape v0 Hbef Haft Hf0 Hrun.
+    intros Hs Hlen Hm Hchk Hend Hfe Hfl Hfd Hpos Hfeas Hinv Hmm Hoff Hshape v0 Hbef Haft Hf0 Hrun.
     pose proof (py_pos_lt _ _ _ Hpos) as Hp.
     destruct (w_ec_valid num o Hinv) as (ec & Hec & Hecr).
     assert (Hlt : (max_iter o <? min_iter o) = false) by lia.
@@ -117,10 +117,10 @@ Section Run.
       replace (Z.of_nat p + offset o <? 0) with false by lia.
       replace (Z.of_nat n <=? Z.of_nat p + offset o) with false by lia. reflexivity. }
     destruct (sim_run fm d o t p n m ec v0 Haft Hshape Hp Hm Hg Hchk Hend Hfe (Z.to_nat (max_iter o)) 0%nat
-                (log s ++ [EvBefore t]) (-1) Hs0 Hf0 Hrun) as (i & x & k & lg' & Hloop & Hx & Htl).
+                (log s ++ [EvBefore t]) 0 Hs0 Hf0 Hrun) as (i & x & k & lg' & Hloop & Hx & Htl).
     cbn [FSolveSim.iterv] in Hloop, Htl. unfold FSolveSim.chk in Hloop, Htl. cbn [FSolveSim.iterv] in Hloop, Htl.
     change (Z.of_nat 1) with 1 in Htl.
-    assert (HN : (Z.to_nat (max_iter o) =? 0)%nat = false) by (apply Nat.eqb_neq; lia). rewrite HN in Htl.
+    assert (HN : (if (Z.to_nat (max_iter o) =? 0)%nat then 0 else 0) = 0) by (destruct (Z.to_nat (max_iter o) =? 0)%nat; reflexivity). rewrite HN in Htl.
     assert (Hts : t_solve_t fm v0 (t + 1) (min_iter o) (max_iter o) (tol o) (offset o) (cv_of d) ec
                   = mkFout (iterv p v0 i) (st_eqb x Solved) (Z.of_nat k) 0).
     { rewrite (t_solve_t_spec num sub absf ltb isfin zero evf fm d o (t + 1) p n m ec v0 Hs0 Hm Hp Hchk Hend Hfe
